@@ -1254,7 +1254,7 @@ def register():
             GENS[k[4:]] = v
 
 
-HUGE_PIDS = {"C01", "C02", "C03", "C06", "C07", "C08", "C09", "C10", "C13"}
+HUGE_PIDS = {"C01", "C02", "C03", "C06", "C07", "C08", "C09", "C10", "C13", "C20"}
 
 
 def gen_huge(pid, tier, seed):
@@ -1310,6 +1310,17 @@ def gen_huge(pid, tier, seed):
                 wc, wr = w[2] - w[0], w[3] - w[1]
                 if 0 < wc and 0 < wr and w[2] <= C and w[3] <= R:
                     lines += [f"@v({s_})v(0,{wr // 2},{wc},{wr}) size", f"@v({s_})w(0,1,{wc},{wr}) rows l,N{wr},l"]
+        if pid == "C20":
+            # constructors at the top of the range: every shape whose product fits a usize is a valid array of zero-sized cells
+            # (`init`; `new` would run `T::default` once per cell), and a view built over (a prefix of) its buffer likewise
+            lines += ["@ lens"] if C <= 64 else []
+            for (c2, r2) in [(C, R), (R, C), (1, n), (n, 1), (C, R - 1), (C, R + 1), (C + 1, R), (2, n // 2), (n // 2 + 1, 2)]:
+                if 0 <= c2 <= M and 0 <= r2 <= M:
+                    for k in sorted(set(x for x in [n, n - 1, c2 * r2] if 0 <= x <= M)):
+                        lines += [f"@s({c2},{r2},{k}) size", f"@S({c2},{r2},{k}) size"]
+            for (c2, r2) in [(R, C), (1, n), (n, 1), (2, n // 2), (2**32, 2**31), (2**63, 1), (1, 2**63), (2**32, 2**32), (0, 5), (M, M)]:
+                if 0 <= c2 <= M and 0 <= r2 <= M:
+                    lines += [f"@ init {c2} {r2} 0", "@ size"]
         small_c = C <= 64
         if pid in ("C01", "C13") and small_c:
             for a in args(R)[:10] + [R - 1, R]:
